@@ -343,6 +343,41 @@ func (g *GV) Realise() any {
 	return nil
 }
 
+// hasOther: the value contains a chan / func / … (not comparable with DeepEqual)
+func (g *GV) hasOther() bool {
+	if g == nil {
+		return false
+	}
+	if g.K == "O" {
+		return true
+	}
+	for _, e := range g.Elems {
+		if e.hasOther() {
+			return true
+		}
+	}
+	return false
+}
+
+// hasOtherReachable: an unsupported kind outside of unexported struct fields
+func (g *GV) hasOtherReachable() bool {
+	if g == nil {
+		return false
+	}
+	if g.K == "O" {
+		return true
+	}
+	for i, e := range g.Elems {
+		if g.K == "T" && !g.Export[i] {
+			continue
+		}
+		if e.hasOtherReachable() {
+			return true
+		}
+	}
+	return false
+}
+
 func (g *GV) DataMap() map[string]any {
 	if g == nil || g.K != "M" {
 		return nil
